@@ -21,6 +21,7 @@ _real_lstat = os.lstat
 _real_fstat = os.fstat
 _real_os_open = os.open
 _real_os_close = os.close
+_real_readlink = os.readlink
 
 PASSTHROUGH_DEV = ("/dev/null", "/dev/urandom", "/dev/random", "/dev/tty", "/dev/shm",
                    "/dev/fd", "/dev/stdin", "/dev/stdout", "/dev/stderr", "/dev/pts", "/dev/zero", "/dev/full")
@@ -49,6 +50,7 @@ class World:
     def reset(self):
         self.events = []
         self.nodes = {}          # path -> Node
+        self.links = {}          # path -> (target path, inode of the link itself)
         self.next_ino = 1000
         self.handles = []        # every VHandle ever opened, in order
         self.next_fd = FAKE_FD_BASE
@@ -105,6 +107,28 @@ class World:
         self.ev("vfs.replug", path=path)
         return self.plug(path, target, ino)
 
+    def symlink(self, path, target):
+        """create or re-point a symbolic link in the virtual /dev (each creation is a new directory entry: new inode)"""
+        self.next_ino += 1
+        self.links[path] = (target, self.next_ino)
+        self.ev("vfs.symlink", path=path, target=target, ino=self.next_ino)
+
+    def resolve(self, path):
+        for _ in range(8):
+            if path not in self.links:
+                return path
+            t = self.links[path][0]
+            path = t if t.startswith("/") else os.path.normpath(os.path.join(os.path.dirname(path), t))
+        return path
+
+    def lookup(self, path):
+        """the node a path leads to now (symbolic links followed), or None"""
+        return self.nodes.get(self.resolve(path))
+
+    def is_dir(self, path):
+        path = path.rstrip("/") or "/"
+        return path == "/dev" or any(p.startswith(path + "/") for p in list(self.nodes) + list(self.links))
+
     # ---- faults
     def arm(self, fault):
         """fault: dict(kind=..., ...) consumed by the next command at a binding"""
@@ -130,9 +154,9 @@ class Node:
 
 
 class VStat:
-    def __init__(self, ino):
+    def __init__(self, ino, mode=0o020660):
         self.st_ino = ino
-        self.st_mode = 0o020660
+        self.st_mode = mode
         self.st_dev = 5
         self.st_nlink = 1
         self.st_uid = self.st_gid = 0
@@ -234,8 +258,8 @@ def _is_virtual(path):
 
 def _vopen(path, mode="r", buffering=-1, *a, **kw):
     path = os.fspath(path) if not isinstance(path, str) else path
-    node = WORLD.nodes.get(path)
-    if path in ("/dev", "/dev/"):
+    node = WORLD.lookup(path)
+    if node is None and WORLD.is_dir(WORLD.resolve(path)):
         WORLD.ev("vfs.open", path=path, mode=mode, error="EISDIR")
         raise IsADirectoryError(_errno.EISDIR, "Is a directory", path)
     if node is None:
@@ -247,6 +271,12 @@ def _vopen(path, mode="r", buffering=-1, *a, **kw):
         raise OSError(f.get("errno", _errno.EACCES), os.strerror(f.get("errno", _errno.EACCES)), path)
     h = VHandle(node, path, mode, buffering)
     WORLD.ev("vfs.open", path=path, mode=mode, buffering=buffering, hid=h.hid, ino=node.ino)
+    f = WORLD.take_fault(("after_open",))
+    if f is not None:
+        # the world moves between two system calls of the library: the node vanishes right after this open succeeded
+        real = WORLD.resolve(path)
+        if real in WORLD.nodes:
+            WORLD.unplug(real)
     return h
 
 
@@ -263,8 +293,13 @@ def fake_stat(path, *a, **kw):
         return fake_fstat(path)
     if _is_virtual(path):
         p = os.fspath(path)
-        node = WORLD.nodes.get(p)
+        if isinstance(p, bytes):
+            p = p.decode()
+        node = WORLD.lookup(p)
         if node is None:
+            if WORLD.is_dir(WORLD.resolve(p)):
+                WORLD.ev("vfs.stat", path=p, dir=True)
+                return VStat(2, 0o040755)
             WORLD.ev("vfs.stat", path=p, error="ENOENT")
             raise FileNotFoundError(_errno.ENOENT, "No such file or directory", p)
         WORLD.ev("vfs.stat", path=p, ino=node.ino)
@@ -274,8 +309,27 @@ def fake_stat(path, *a, **kw):
 
 def fake_lstat(path, *a, **kw):
     if _is_virtual(path):
+        p = os.fspath(path)
+        if isinstance(p, bytes):
+            p = p.decode()
+        if p in WORLD.links:
+            # the directory entry itself: a symbolic link has its own inode, whatever it points to
+            WORLD.ev("vfs.lstat", path=p, ino=WORLD.links[p][1], link=True)
+            return VStat(WORLD.links[p][1], 0o120777)
         return fake_stat(path)
     return _real_lstat(path, *a, **kw)
+
+
+def fake_readlink(path, *a, **kw):
+    if _is_virtual(path):
+        p = os.fspath(path)
+        if isinstance(p, bytes):
+            p = p.decode()
+        if p in WORLD.links:
+            WORLD.ev("vfs.readlink", path=p, target=WORLD.links[p][0])
+            return WORLD.links[p][0]
+        raise OSError(_errno.EINVAL if (WORLD.lookup(p) is not None or WORLD.is_dir(p)) else _errno.ENOENT, "readlink", p)
+    return _real_readlink(path, *a, **kw)
 
 
 def fake_fstat(fd):
@@ -396,7 +450,7 @@ def make_sgio():
         if h is None:
             W.ev("sgio.cmd", error="EBADF")
             raise OSError(_errno.EBADF, "Bad file descriptor")
-        node_now = W.nodes.get(h.name)
+        node_now = W.lookup(h.name)
         extra = dict(hid=h.hid, handle_ino=h.ino, path_ino=node_now.ino if node_now else None, same_node=node_now is h.node)
         status, sense, datain, err = _deliver("sgio", h.node.target, bytes(cdb),
                                               bytes(data_out) if out_len else b"", in_len, extra)
@@ -549,18 +603,39 @@ def make_iscsi():
 _installed = False
 
 
+class _UnloadableFinder:
+    names = set()
+
+    def find_spec(self, name, path=None, target=None):
+        if name in self.names:
+            WORLD.fired["binding_unloadable"] = WORLD.fired.get("binding_unloadable", 0) + 1
+            raise ImportError("%s.cpython-312-x86_64-linux-gnu.so: undefined symbol: sg_io_v3 (simulated)" % name, name=name)
+        return None
+
+
 def install(sgio=True, iscsi=True, hostname="simhost"):
     """Install the seams.  Must run before pyscsi is imported.  sgio/iscsi:
-    True -> fake module present, False -> absent (import raises ImportError)."""
+    True -> fake module present, False -> absent (import raises ModuleNotFoundError),
+    "unloadable" -> installed but failing to load (import raises plain ImportError)."""
     global _installed
     WORLD.hostname = hostname
-    sys.modules["sgio"] = make_sgio() if sgio else None
-    sys.modules["iscsi"] = make_iscsi() if iscsi else None
+    for name, present, make in (("sgio", sgio, make_sgio), ("iscsi", iscsi, make_iscsi)):
+        if present == "unloadable":
+            # the extension module is installed but cannot be loaded (stale build, missing shared library):
+            # the import machinery reports that as a plain ImportError, not as ModuleNotFoundError
+            sys.modules.pop(name, None)
+            _UnloadableFinder.names.add(name)
+            if not any(isinstance(f, _UnloadableFinder) for f in sys.meta_path):
+                sys.meta_path.insert(0, _UnloadableFinder())
+        else:
+            _UnloadableFinder.names.discard(name)
+            sys.modules[name] = make() if present else None
     if not _installed:
         builtins.open = fake_open
         io.open = fake_open
         os.stat = fake_stat
         os.lstat = fake_lstat
+        os.readlink = fake_readlink
         os.fstat = fake_fstat
         os.open = fake_os_open
         os.close = fake_os_close
